@@ -87,7 +87,13 @@ def fetch (s : State) (name : Name) (size : Option Nat) (atts : List Attempt) : 
     | some sz =>
       if name ∈ s.failed then (s, .fail)
       else match writeBlob H crc s.cas name sz atts s.pl with
-        | (c, .ok) => ({ s with cas := c }, .ok)
+        | (c, .ok) =>
+          -- `Refresher.download`: the piece length was chosen for the Stat size; if the stored blob has
+          -- another length the store left the metainfo to the refresher, which generates it
+          if statSize c name = some sz then ({ s with cas := c }, .ok)
+          else match genMetaFromFile crc c name s.pl with
+            | (c', .ok) => ({ s with cas := c' }, .ok)
+            | (c', _) => ({ s with cas := c', failed := name :: s.failed }, .fail)
         | (c, _) => ({ s with cas := c, failed := name :: s.failed }, .fail)
 
 def overwriteMeta (s : State) (name : Name) (pl : Int) : State × ORes :=
